@@ -18,8 +18,10 @@ def _run_one_stream(prop, s, binaries, seed, n, tag, ops_file=None, race=False):
     outdir = _stream_dir(prop, s, tag)
     if s.get("kind", "bin") == "bin":
         b = binaries.get((s["mod"], race)) or binaries.get((s["mod"], False))
+        # optional per-stream environment ("{outdir}" = this run's directory), e.g. GORACE log_path
+        env_extra = {k: v.replace("{outdir}", outdir) for k, v in s.get("env", {}).items()} or None
         return C.run_stream(b, s["component"], s["driver"], seed, n, outdir, ops_file=ops_file,
-                            timeout=s.get("timeout", 3600))
+                            timeout=s.get("timeout", 3600), env_extra=env_extra)
     # go test harness: the test writes the same files through verifhlib.Emitter
     import shutil
     shutil.rmtree(outdir, ignore_errors=True)
